@@ -234,16 +234,20 @@ DOC = {"a": [1, 2, {"b": "x"}], "b": {"c": [True, None]}, "e": "é", "1": [0], "
 QUERIES_OK = ["$", "$.a", "$.a[*]", "$..b", "$.a[?@ > 1]", "$.a[?@.b == 'x']", "$.b.c[1:]", "$['e']", "$.zz", "$..*", "$[?length(@) > 1]", "$.a[-1]",
               "$['\\u00e9']", "a", "$.a | $.s", "$[?match(@, 'a.c')]", "$['\\u0061']", "$[?@ == '\\u0061bc']", "$['\\\\u0062']"]
 QUERIES_BAD = ["$[", "$.a[?", "$[?@.a ==]", "$.a[?length(@.*) > 1]", "$[?count(1) > 1]", "$[?foo(@)]", "$[?nosuch(@.a) == 1]", "$[9007199254740992]", "$[01]", "$['a',]",
-               "$[?@.a == 'x", "$..", "$[?@ =~ /(/]", "$[1e400]", "$[?!length(@)]", "$[?1e400 == @]"]
+               "$[?@.a == 'x", "$..", "$[?@ =~ /(/]", "$[1e400]", "$[?!length(@)]", "$[?1e400 == @]",
+               # rejected inputs that carry line breaks of their own: the message must still be one line
+               "$[?@.a 'x\ny' == 1]", "$[?'a\nb']", "$.a\n&", "$[?@.a\n===\n1]", "$[?@ == 1 'l1\r\nl2']", "$.a |\n", "$['a\nb' 'c']"]
 POINTERS_OK = ["", "/a", "/a/0", "/a/2/b", "/b/c/1", "/e", "/1/0", "/s", "/e%20f", "/caf%C3%A9/0", "/p%25q", "/e f", "/caf\u00e9", "/\\u0061/0", "/\\u0062", "/\\u0073"]
-POINTERS_BAD = ["/zz", "/a/9", "/a/-", "/s/0", "a", "/a/x", "/b/c/2", "/a/01", "/\\u12", "/%zz"]
+POINTERS_BAD = ["/zz", "/a/9", "/a/-", "/s/0", "a", "/a/x", "/b/c/2", "/a/01", "/\\u12", "/%zz", "/z\nz", "a\nb", "/a/1\n", "/a/\r\n0"]
 PATCHES_OK = [[{"op": "add", "path": "/n", "value": 1}], [{"op": "remove", "path": "/a/0"}], [{"op": "replace", "path": "/e", "value": [1]}],
               [{"op": "move", "from": "/a/0", "path": "/b/m"}], [{"op": "copy", "from": "/b", "path": "/a/-"}], [{"op": "test", "path": "/a/0", "value": 1}],
               [], [{"op": "add", "path": "", "value": {"x": 1}}], [{"op": "add", "path": "/a/3", "value": "é"}],
               [{"op": "replace", "path": "/e%20f", "value": 1}], [{"op": "add", "path": "/caf%C3%A9/-", "value": 2}], [{"op": "remove", "path": "/p%25q"}],
               [{"op": "move", "from": "/e%20f", "path": "/moved"}], [{"op": "test", "path": "/caf%C3%A9/0", "value": 1}]]
 PATCHES_BAD = [[{"op": "remove", "path": "/zz"}], [{"op": "test", "path": "/a/0", "value": 2}], [{"op": "nope", "path": "/a"}], [{"op": "add", "path": "/a"}],
-               [{"path": "/a"}], {"op": "add"}, "text", 5, [{"op": "add", "path": "a", "value": 1}], [{"op": "add", "path": "/a/9", "value": 1}], [1]]
+               [{"path": "/a"}], {"op": "add"}, "text", 5, [{"op": "add", "path": "a", "value": 1}], [{"op": "add", "path": "/a/9", "value": 1}], [1],
+               [{"op": "rem\nove", "path": "/a"}], [{"op": "remove", "path": "/z\nz"}], [{"op": "add", "path": "a\nb", "value": 1}],
+               [{"op": "move", "from": "/z\r\nz", "path": "/a/0"}], [{"op": "test", "path": "/a/0", "value": "l1\nl2"}]]
 DOCS_BAD = [b"{", b"[1,", b"", b"\xff\xfe{}", b'{"a": \xc3\x28}', b"nul"]
 
 
